@@ -326,9 +326,12 @@ def job(p: Dict[str, Any], src: Path, base: Path, hashseed: int, mode: str, buil
     return [r1, r2]
 
 
-def matrix(ctx_seed: int, quick: bool, big: bool = False) -> Tuple[List[int], List[str]]:
-    seeds = [0, 1, 2, 3] if quick or big else [0, 1, 2, 3, 4, 5]
-    modes = ["asis", "reverse"] if quick or big else ["asis", "reverse", "shuffle:%d" % ctx_seed]
+def matrix(ctx_seed: int, quick: bool, n: int = 0) -> Tuple[List[int], List[str]]:
+    """hash seeds and listing orders for project number n: always 4 seeds x 2 orders (x fresh / reused)"""
+    if quick:
+        return [0, 1, 2, 3], ["asis", "reverse"]
+    seeds = [0, 1 + n % 5, 7 + n % 3, 100 + n]
+    modes = ["asis", "reverse"] if n % 2 == 0 else ["sorted", "shuffle:%d" % (ctx_seed * 1000 + n)]
     return seeds, modes
 
 
@@ -742,24 +745,24 @@ def run(ctx: Ctx) -> None:
             projects.append(p)
             if len(p["roots"]) >= 2 and p["explicit"] is None and len(projects) < nproj:
                 projects.append(with_name(p, "Paired"))      # same sources, name given: nothing else may differ
-        seeds, modes = matrix(ctx.seed, ctx.quick)
-        run_projects(ctx, st, projects, scratch, seeds, modes, jobs=16)
+        run_projects(ctx, st, projects, scratch, jobs=16)
         if not ctx.quick:
-            bseeds, bmodes = matrix(ctx.seed, ctx.quick, big=True)
-            run_projects(ctx, st, real_projects(), scratch, bseeds, bmodes, jobs=16)
+            run_projects(ctx, st, real_projects(), scratch, jobs=16)
             own = {"id": "pydoctor-own-sources", "srcroot": str(REPO), "roots": ["pydoctor"],
                    "args": ["--docformat=epytext", "--project-name=pydoctor"], "explicit": "pydoctor", "kind": "own-sources", "files": {}}
-            run_projects(ctx, st, [own], scratch, bseeds, bmodes, jobs=8)
+            run_projects(ctx, st, [own], scratch, jobs=10)
         st.flush(ctx)
     finally:
         shutil.rmtree(scratch, ignore_errors=True)
 
 
-def run_projects(ctx: Ctx, st: Streams, projects: List[Dict[str, Any]], scratch: Path,
-                 seeds: List[int], modes: List[str], jobs: int) -> None:
+def run_projects(ctx: Ctx, st: Streams, projects: List[Dict[str, Any]], scratch: Path, jobs: int) -> None:
     tasks = []
     prepared = []
+    mats = []
     for n, p in enumerate(projects):
+        seeds, modes = matrix(ctx.seed, ctx.quick, n)
+        mats.append((seeds, modes))
         base = scratch / ("%s_%d" % (p["id"].replace("/", "_").replace("+", "_"), n))
         base.mkdir(parents=True)
         src = materialise(p, base)
@@ -779,6 +782,7 @@ def run_projects(ctx: Ctx, st: Streams, projects: List[Dict[str, Any]], scratch:
         for (n, hs, mode, bt), rs in ex.map(work, tasks):
             results[n][(hs, mode, bt)] = rs
     for n, (p, src, base) in enumerate(prepared):
+        seeds, modes = mats[n]
         ctx.count("projects:" + p.get("kind", "generated"))
         ctx.count("roots=%d%s" % (len(p["roots"]), "" if p.get("explicit") is None else "+name"))
         if p.get("docformat"):
@@ -810,8 +814,7 @@ def replay(ctx: Ctx, obj) -> int:
     scratch = Path(tempfile.mkdtemp(prefix="c18-replay-"))
     try:
         st = Streams()
-        seeds, modes = matrix(0, True)
-        run_projects(ctx, st, [p], scratch, seeds, modes, jobs=16)
+        run_projects(ctx, st, [p], scratch, jobs=16)
         st.flush(ctx)
     finally:
         shutil.rmtree(scratch, ignore_errors=True)
